@@ -113,8 +113,9 @@ def _special(ctx, pending):
     # Wilson: a very long first walk (bounces between two unvisited cells; legal, unlikely) — step budgets, caps and restarts show here
     import c19, numpy as np
     from maze_dataset.generation.generators import LatticeMazeGenerators as LG
-    for (r, c) in [(2, 3), (3, 3), (4, 4)] + ([] if ctx.quick else [(5, 5), (3, 7), (8, 8)]):
-        sc = c19.long_walk_script(r, c, 40 * r * c + 7)
+    for (r, c) in [(1, 4), (2, 3), (3, 3), (4, 4)] + ([] if ctx.quick else [(5, 5), (3, 7), (8, 8)]):
+        # longer than any budget polynomial in the grid size that a 'guard' could plausibly use (quadratic with a generous constant on small grids)
+        sc = c19.long_walk_script(r, c, max(40 * r * c + 7, 70 * (r * c) ** 2 + 11 if r * c <= 16 else 0))
         if sc is None: continue
         case = dict(gen="wilson", rows=r, cols=c, kwargs={})
         with c19.WTap(sc, then_random=ctx.rng) as t:
